@@ -49,6 +49,12 @@ structure Cfg where
   quorum : Quorum
   target : Option Content
   isReg : Bool
+  /-- `expected_holders`: the peers the caller names as holders of the record. `accumulate_get_record_found` removes
+  each answering peer from the set kept with the pending query (kad.rs, `cfg.expected_holders.remove(&peer_id)`) and the
+  handlers mention what is left in log lines only (read in the source); nothing a caller observes depends on it — in
+  particular not the number of copies required, which is `get_quorum_value(&cfg.get_quorum)` at every site (the
+  translator refuses any other expression). The field is part of the cfg the theorems quantify over. -/
+  expected : List Nat := []
   deriving DecidableEq, Repr
 
 /-- `Quorum::N` carries a `NonZeroUsize`. -/
